@@ -165,6 +165,7 @@ func checkC04(c *Ctx) {
 	c.checkBuiltinsNeutral("C04-USR")
 	c.checkLoopScopeDepth("ES-S")
 	c.checkRunBrackets()
+	c.checkStackmarkIdentity("C04-MARK")
 }
 
 func (c *Ctx) checkRunBrackets() {
@@ -246,6 +247,8 @@ func checkC02(c *Ctx) {
 	c.esReport("ES-J", "ES-D", "ES-T", "ES-MODEL")
 	c.note("emission_templates", len(c.es.templates))
 	c.checkIX("", "C02-PC")
+	c.checkStackmarkIdentity("C02-MARK")
+	c.checkMapOrder("C02-MAP")
 	// ---- C02-ORD
 	if f := c.mustFn("C02-ORD", "CallExprInstr.Execute"); f != nil {
 		ev := c.fn("Zlisp.EvalCallExpression")
@@ -345,4 +348,204 @@ func checkC02(c *Ctx) {
 		c.check(okVar && nSucc >= 2 && guard, "C02-VAR", "Zlisp.wrangleOptargs", "one rest value; too few is an error", f.Pos(), "every success path pushes exactly one rest value (a list or nil) and nargs < fnargs is rejected",
 			"variadic packing does not push exactly one rest value on every success path, or no longer rejects too few arguments")
 	}
+}
+
+// checkStackmarkIdentity: the two instructions that unwind the data stack to
+// a loop's stack mark must recognise *their* mark (same symbol), not just any
+// mark: a labelled break of an outer loop crosses the inner loop's mark.
+func (c *Ctx) checkStackmarkIdentity(rule string) {
+	num := c.field("SexpSymbol", "number")
+	markSym := c.field("SexpStackmark", "sym")
+	if num == nil || markSym == nil {
+		c.undecided(rule, "SexpStackmark", "sym / number", token.NoPos, "anchor fields not found")
+		return
+	}
+	for _, name := range []string{"PopUntilStackmarkInstr.Execute", "ClearStackmarkInstr.Execute"} {
+		f := c.mustFn(rule, name)
+		if f == nil {
+			continue
+		}
+		// an equality test between the popped mark's symbol and the instruction's own symbol
+		var test *ssa.BinOp
+		eachInstr(f, func(b *ssa.BasicBlock, i int, in ssa.Instruction) {
+			bo, ok := in.(*ssa.BinOp)
+			if !ok || bo.Op != token.EQL && bo.Op != token.NEQ {
+				return
+			}
+			side := func(v ssa.Value) string {
+				// number of a symbol, or the symbol pointer itself
+				if base, ok := loadOfField(v, num); ok {
+					v = base
+				}
+				if base, ok := loadOfField(v, markSym); ok {
+					_ = base
+					return "mark"
+				}
+				if fl, ok := v.(*ssa.Field); ok && fl.X.Type() == f.Params[0].Type() {
+					return "self"
+				}
+				if ld, ok := v.(*ssa.UnOp); ok && ld.Op == token.MUL {
+					if fa, ok := ld.X.(*ssa.FieldAddr); ok {
+						if al, ok := fa.X.(*ssa.Alloc); ok {
+							_ = al
+							return "self" // the receiver spilled to a local
+						}
+					}
+				}
+				return ""
+			}
+			a, b2 := side(bo.X), side(bo.Y)
+			if (a == "mark" && b2 == "self") || (a == "self" && b2 == "mark") {
+				test = bo
+			}
+		})
+		if test == nil {
+			c.bad(rule, name, "stops at its own mark", f.Pos(), "the unwinding loop never compares the mark it popped with the instruction's own symbol: it stops at the first mark of any loop, so a labelled break or continue of an outer loop leaves the outer mark (and what is below it) on the data stack")
+			continue
+		}
+		// every successful return is reached only through the `equal` outcome of that test
+		okAll := true
+		for _, r := range returnsOf(f) {
+			if len(r.Results) == 1 && isNilConst(r.Results[0]) {
+				g := guardedBy(r.Block(), func(cond ssa.Value) (bool, bool) {
+					if cond == ssa.Value(test) {
+						return true, test.Op == token.EQL
+					}
+					return false, false
+				})
+				if !g {
+					okAll = false
+				}
+			}
+		}
+		c.check(okAll, rule, name, "stops at its own mark", test.Pos(),
+			"the loop is left successfully only when the popped mark carries the instruction's own symbol",
+			"the unwinding loop can end successfully without having met its own mark")
+	}
+}
+
+// checkMapOrder: map applies the function to the elements in order
+// (observable through side effects and through which error is raised first).
+func (c *Ctx) checkMapOrder(rule string) {
+	apply := c.mustFn(rule, "Zlisp.Apply")
+	if apply == nil {
+		return
+	}
+	if f := c.mustFn(rule, "MapList"); f != nil {
+		ap := callsOf(f, apply)
+		rec := callsOf(f, f)
+		switch {
+		case len(ap) == 0:
+			c.bad(rule, "MapList", "head before tail", f.Pos(), "map over a list no longer applies the function")
+		case len(rec) == 0:
+			// iterative form: a singly linked list can only be walked front to back
+			inLoop := loopOf(ap[0].Block()) != nil
+			c.check(inLoop, rule, "MapList", "head before tail", ap[0].Pos(), "the function is applied while walking the list front to back", "map over a list applies the function once only")
+		default:
+			ok := true
+			for _, r := range rec {
+				dominated := false
+				for _, a := range ap {
+					if dominatesInstr(a.(ssa.Instruction), r.(ssa.Instruction)) {
+						dominated = true
+					}
+				}
+				if !dominated {
+					ok = false
+				}
+			}
+			c.check(ok, rule, "MapList", "head before tail", rec[0].Pos(),
+				"the function is applied to the head before the rest of the list is mapped",
+				"the rest of the list is mapped before the function is applied to the head: side effects run back to front and the error reported is the last failing element's")
+		}
+	}
+	if f := c.mustFn(rule, "MapArray"); f != nil {
+		ap := callsOf(f, apply)
+		ok := len(ap) == 1
+		if ok {
+			// the element slice handed to Apply is indexed by a counter that starts at 0 and goes up (or a range loop)
+			ok = false
+			if sl, isSl := ap[0].Common().Args[2].(*ssa.Slice); isSl && sl.Low != nil {
+				idx := sl.Low
+				if bo, isBo := idx.(*ssa.BinOp); isBo && bo.Op == token.ADD { // rangeindex + 1
+					idx = bo
+				}
+				for _, leaf := range phiLeavesThroughAdd(idx) {
+					if k, isK := constIntOf(leaf); isK && (k == 0 || k == -1) {
+						ok = true
+					}
+				}
+				if ok {
+					// ascending: the phi's back edge adds +1
+					ok = ascending(idx)
+				}
+			}
+		}
+		pos := f.Pos()
+		if len(ap) > 0 {
+			pos = ap[0].Pos()
+		}
+		c.check(ok, rule, "MapArray", "ascending index", pos, "the function is applied to elements 0,1,2,… in that order", "map over an array does not visit the elements in ascending order")
+	}
+}
+
+func phiLeavesThroughAdd(v ssa.Value) []ssa.Value {
+	seen := map[ssa.Value]bool{}
+	var out []ssa.Value
+	var walk func(ssa.Value)
+	walk = func(x ssa.Value) {
+		if seen[x] {
+			return
+		}
+		seen[x] = true
+		switch y := x.(type) {
+		case *ssa.Phi:
+			for _, e := range y.Edges {
+				walk(e)
+			}
+		case *ssa.BinOp:
+			if y.Op == token.ADD {
+				walk(y.X)
+				return
+			}
+			out = append(out, x)
+		default:
+			out = append(out, x)
+		}
+	}
+	walk(v)
+	return out
+}
+
+// ascending: v is (an increment of) a loop counter whose back edge adds a positive constant.
+func ascending(v ssa.Value) bool {
+	seen := map[ssa.Value]bool{}
+	var phi *ssa.Phi
+	var find func(ssa.Value)
+	find = func(x ssa.Value) {
+		if seen[x] || phi != nil {
+			return
+		}
+		seen[x] = true
+		switch y := x.(type) {
+		case *ssa.Phi:
+			phi = y
+		case *ssa.BinOp:
+			find(y.X)
+		}
+	}
+	find(v)
+	if phi == nil {
+		return false
+	}
+	for _, e := range phi.Edges {
+		if bo, ok := e.(*ssa.BinOp); ok && bo.X == ssa.Value(phi) {
+			k, isK := constIntOf(bo.Y)
+			if bo.Op == token.ADD && isK && k > 0 {
+				return true
+			}
+			return false
+		}
+	}
+	return false
 }
